@@ -47,7 +47,9 @@ def make_world(wid, k, rng, gates=True, rendezvous=None, bad=True, ntests=2):
         l = 'L%d' % i
         layers[l] = {'kind': 'class', 'bases': [], 'hooks': HOOKS}
         ids = []
-        for j in range(1, ntests + 1):
+        # (later layers are bigger: which layers get the first N slots must not
+        # depend on their sizes)
+        for j in range(1, ntests + (i - 1 if gates else 0) + 1):
             tid = 't%d_%d' % (i, j)
             ids.append(tid)
             tests[tid] = {'body': [w(), w()]}
@@ -66,6 +68,31 @@ def make_world(wid, k, rng, gates=True, rendezvous=None, bad=True, ntests=2):
                                           'timeout': 45.0})
     return {'id': wid, 'layers': layers, 'layer_order': list(layers), 'classes': classes, 'tests': tests,
             'env': {'barriers': ['go_L%d' % i for i in range(1, k + 1)]}}
+
+
+def make_names_world(wid, rng):
+    """mode comparison only: layers whose names differ just where one has a dot
+    (a name used as a regular expression confuses them), test ids with
+    characters at which str.splitlines splits, layers of different sizes"""
+    names = ['La.b', 'La_b', 'LaXb', 'La.b.c']
+    rng.shuffle(names)
+    names = names[:3]
+    layers, classes, tests = {}, {}, {}
+    n = 0
+    for i, l in enumerate(names):
+        layers[l] = {'kind': 'class', 'bases': [], 'hooks': HOOKS}
+        ids = []
+        for j in range(2 + i):
+            n += 1
+            tid = 't%d' % n
+            ids.append(tid)
+            tests[tid] = {'body': [{'a': 'write', 'tok': 'QZ%dQ' % n}],
+                          'name': 'test_%s%s%d' % (tid, rng.choice(['\x0c', '\x0b', '\x85', '\u2028', '\x1c', '_']), j)}
+        tests[ids[0]]['body'].append('fail')
+        tests[ids[-1]]['body'].append({'a': 'error'})
+        classes['T%d' % i] = {'tests': ids, 'layer': l}
+    return {'id': wid, 'layers': layers, 'layer_order': list(layers), 'classes': classes, 'tests': tests,
+            'env': {'barriers': []}}
 
 
 def controller_for(order, n, k):
@@ -220,13 +247,19 @@ def run(chk, tier, seed, replay=None):
             n_id += 1
             cases.append({'id': 'p%d' % n_id, 'k': 3, 'N': n, 'order': [], 'kind': 'shuffle',
                           'verb': vb + ['--shuffle', '--shuffle-seed', str(rng.randrange(1, 10 ** 6))]})
+        # names and ids that a regular expression / str.splitlines would get wrong
+        for n, vb in [(2, ['-v']), (3, ['-vv']), (2, [])]:
+            n_id += 1
+            cases.append({'id': 'p%d' % n_id, 'k': 3, 'N': n, 'order': [], 'verb': vb, 'kind': 'names'})
         # a child dies while the layer at the head of the order is parked half way
         for n, vb in [(2, ['-v']), (3, []), (2, [])]:
             n_id += 1
             cases.append({'id': 'p%d' % n_id, 'k': 3, 'N': n, 'order': [], 'verb': vb, 'kind': 'crash-beside'})
         for c in cases:
             wrng = random.Random(seed * 31 + c['k'])
-            if c['kind'] == 'finish-order':
+            if c['kind'] == 'names':
+                c['world'] = make_names_world(c['id'], random.Random(seed * 131 + n_id + len(c['verb'])))
+            elif c['kind'] == 'finish-order':
                 c['world'] = make_world(c['id'], c['k'], wrng)
             elif c['kind'] == 'rendezvous':
                 c['world'] = make_world(c['id'], c['k'], wrng, gates=False, rendezvous=(1, 3))
@@ -245,6 +278,7 @@ def run(chk, tier, seed, replay=None):
             else:
                 c['world'] = make_world(c['id'], c['k'], wrng, gates=False)
                 c['world']['env']['spawn_fail'] = ['tests.L2']
+                c['world']['env']['spawn_errno'] = wrng.choice(['ENOMEM', 'EAGAIN', 'ENOENT'])
 
     def one(c):
         w = c['world']
@@ -255,6 +289,7 @@ def run(chk, tier, seed, replay=None):
         env = {}
         if w.get('env', {}).get('spawn_fail'):
             env['VERIF_SPAWN_FAIL'] = json.dumps(w['env']['spawn_fail'])
+            env['VERIF_SPAWN_ERRNO'] = w['env'].get('spawn_errno', 'ENOMEM')
         if c['kind'] == 'finish-order':
             ctl = controller_for(c['order'], c['N'], c['k'])
         elif c['kind'] == 'crash-beside':
@@ -315,7 +350,7 @@ def run(chk, tier, seed, replay=None):
     # must be a behaviour of Parallel.tla (unlogged steps chosen by TLC)
     groups = {}
     for c, (seq, par) in zip(cases, results):
-        if par['timed_out']:
+        if par['timed_out'] or c['kind'] == 'names':
             continue
         evs = sorted([e for e in par['events'] if e['e'] in ('Spawn', 'Reaped')], key=lambda e: e['seq'])
         tr = []
